@@ -263,6 +263,8 @@ def run(P, rep, tier):
     for c in dr.repo_mro():
         for an, expr in c.attrs.items():
             holders.append((parse, expr))
+    for an, expr in dr.module.assigns.items():
+        holders.append((parse, expr))          # a module-level table of handlers / handler names
     for f, root in holders:
         for n in (walk_no_nested(root) if isinstance(root, (ast.FunctionDef, ast.AsyncFunctionDef)) else ast.walk(root)):
             if isinstance(n, ast.Dict) and n.keys and all(k is not None for k in n.keys):
@@ -279,9 +281,10 @@ def run(P, rep, tier):
     for sid in SPEC_IDS:
         if sid in table[0]:
             v = table[1][table[0].index(sid)]
-            ok = isinstance(v, ast.Attribute) and dr.find_method(v.attr) is not None
+            hname = v.attr if isinstance(v, ast.Attribute) else (v.value if isinstance(v, ast.Constant) and isinstance(v.value, str) else None)
+            ok = hname is not None and dr.find_method(hname) is not None
             if ok:
-                rep.ok(r2, '%s -> %s' % (sid, v.attr))
+                rep.ok(r2, '%s -> %s' % (sid, hname))
             else:
                 rep.violation(r2, 'handler-unresolved:%s' % sid, parse.loc(v), 'handler of %s does not resolve to a method' % sid)
         else:
